@@ -23,6 +23,8 @@ from .CDictCompositionMCNP import CDictCompositionMCNP
 from .ConvertIsotope import convert_isotope
 from .EIsotopeNameElementT4 import EIsotopeNameElement
 from .Abundances import Abundances
+from MIP.mip.datacard import re_fortran_real
+from ..Utils import normalize_float
 
 
 def compositionConversionMCNPToT4(mcnp_parser):
@@ -49,9 +51,21 @@ def compositionConversionMCNPToT4(mcnp_parser):
             else:
                 mass_number_t4 = mass_number
             isotope_t4 = atomic_number_t4, mass_number_t4
-            l_composition_t4.append((isotope_t4, str_fabs(fraction)))
+            l_composition_t4.append((isotope_t4,
+                                     str_fabs(fortran_to_e(fraction))))
         d_composition_t4[key] = Abundances(l_composition_t4, atom_fracs)
     return d_composition_t4
+
+
+def fortran_to_e(number_str):
+    '''Return `number_str` unchanged if it is a number that TRIPOLI-4 can
+    read; Fortran spellings that only MCNP understands (``d`` exponents,
+    exponents without a letter) are rewritten with an ``e``: ``9.5d-1`` and
+    ``9.5-1`` both become ``9.5e-1``, while ``-1.50`` and ``1.0E-3`` are kept.
+    '''
+    if re_fortran_real.match(number_str.strip()):
+        return normalize_float(number_str.strip())
+    return number_str
 
 
 def str_fabs(number_str):
